@@ -629,3 +629,56 @@ func sanitizeIdent(s string) string {
 	}
 	return string(out)
 }
+
+// ApplyUpdate2 applies an update2 "modify" difference (ovsdb-server(7)) to a row,
+// with the harness' own rules: columns with max = 1 are overwritten, sets toggle
+// membership, map pairs are added, removed (identical pair) or replaced.
+func (t Table) ApplyUpdate2(old Row, diff Row) (Row, error) {
+	out := old.Clone()
+	for name, d := range diff {
+		if name == "_uuid" {
+			continue
+		}
+		c := t.Col(name)
+		if c == nil {
+			return nil, fmt.Errorf("modify names unknown column %s", name)
+		}
+		cur, ok := out[name]
+		if !ok {
+			cur = c.Default()
+		}
+		switch {
+		case c.Shape() == ShMap:
+			nv := cur.Clone()
+			for i, k := range d.K {
+				if v, has := nv.Get(k); has {
+					if EqAtom(v, d.V[i]) {
+						nv = nv.Without(k)
+					} else {
+						nv = nv.WithPair(k, d.V[i])
+					}
+				} else {
+					nv = nv.WithPair(k, d.V[i])
+				}
+			}
+			if nv.V == nil {
+				nv.V = []Atom{}
+			}
+			nv.M = true
+			out[name] = nv
+		case c.Max == 1:
+			out[name] = d.Clone()
+		default:
+			nv := cur.Clone()
+			for _, a := range d.K {
+				if nv.Has(a) {
+					nv = nv.Without(a)
+				} else {
+					nv = nv.With(a)
+				}
+			}
+			out[name] = nv
+		}
+	}
+	return out, nil
+}
